@@ -11,6 +11,8 @@
   of the crash clause ("every existing pod keeps the IP it was bound with", after resync) belongs to model M4.
 -/
 import Galaxy.Lemmas.IpamInv4
+import Galaxy.Lemmas.PluginCrash
+import Galaxy.Lemmas.PluginCrashC03
 
 namespace Galaxy.Props.C05
 open Galaxy Galaxy.Ipam
@@ -194,5 +196,75 @@ theorem admin_recreate_race_counter :
   · have hp : (run init opsRace).pending = [] := by decide
     rw [hp] at he; cases he
   · revert h1; decide
+
+end Galaxy.Props.C05
+
+/-! ## the pod-level half of the crash clause (plugin model M4, proved by the plugin work package)
+
+  "If the process dies between any two API calls, a restart followed by resync leaves no leaked IP, no doubly owned IP,
+   and every existing pod keeps the IP it was bound with."
+
+  `crashAt facts k j s m` = move `m` of the scheduler-plugin model started in state `s`, the process dies after `k`
+  API-server calls and `j` cloud-provider requests of that move; memory, informer caches and queued events are dropped and
+  a new process starts on the store.  `.resync order 0 0` = one fault-free resync pass of the new process. -/
+
+namespace Galaxy.Props.C05
+open Galaxy Galaxy.Plugin Galaxy.Plugin.C03
+
+/-- "no doubly owned IP, and every existing pod keeps the IP it was bound with": for every history within the plugin
+    model's scope, every move `m`, every crash point `(k, j)` and every admissible resync order, after restart + resync
+    (i) the tables are coherent (one record per address in memory and in the store, allocated and unallocated disjoint,
+    only configured addresses), (ii) every live bound pod still owns every address of its binding annotation — and the
+    pods are exactly those the API server had when the process died —, (iii) the store has an object for an address iff
+    memory has it allocated, with the same record. -/
+theorem pod_crash_restart_resync_safe (c : Conf) (ms : List Move) (hok : allAssumed facts (init c) ms = true)
+    (m : Move) (hm : assumed (run facts (init c) ms) m = true) (k j : Nat) (order : List IP) :
+    Coherent (step facts (crashAt facts k j (run facts (init c) ms) m) (.resync order 0 0)).1 ∧
+    (∀ q, LiveBound (step facts (crashAt facts k j (run facts (init c) ms) m) (.resync order 0 0)).1.pods q →
+      ∀ hd, hd ∈ q.handed → OwnedBy (step facts (crashAt facts k j (run facts (init c) ms) m) (.resync order 0 0)).1 q hd.ip) ∧
+    (step facts (crashAt facts k j (run facts (init c) ms) m) (.resync order 0 0)).1.pods =
+      (stepCrash facts k j (run facts (init c) ms) m).1.pods ∧
+    (∀ ip, Tbl.get (step facts (crashAt facts k j (run facts (init c) ms) m) (.resync order 0 0)).1.store ip =
+      Tbl.get (step facts (crashAt facts k j (run facts (init c) ms) m) (.resync order 0 0)).1.alloc ip) :=
+  crash_restart_resync_safe c ms hok m hm k j order
+
+/-- "leaves no leaked IP": after crash + restart + one successful resync pass every record which still names a pod that
+    does not exist any more (or has finished) is one the documented release policy keeps (evaluated with the record's
+    stored policy), or its policy is `never` — nothing else stays allocated.  The delete / finish events queued when the
+    process died are lost; nothing is assumed about them. -/
+theorem pod_crash_restart_resync_no_leak (c : Conf) (ms : List Move) (hok : allAssumed facts (init c) ms = true)
+    (m : Move) (hm : assumed (run facts (init c) ms) m = true) (k j : Nat) (order : List IP)
+    (hadm : (step facts (crashAt facts k j (run facts (init c) ms) m) (.resync order 0 0)).2.res = .ok) :
+    ∀ ip r, Tbl.get (step facts (crashAt facts k j (run facts (init c) ms) m) (.resync order 0 0)).1.alloc ip = some r →
+      namesPod r.key → podGone (crashAt facts k j (run facts (init c) ms) m) r.key →
+      docKeeps (dinOf CRs.none (step facts (crashAt facts k j (run facts (init c) ms) m) (.resync order 0 0)).1 r.key r.policy) = true ∨
+        r.policy = 2 :=
+  crash_restart_resync_no_orphan c ms hok m hm k j order hadm
+
+def podPool : Galaxy.Plugin.Pool :=
+  { nodeSubnets := [⟨168362240, 24⟩], ranges := [(168427522, 168427523)], gateway := 168427521, bits := 24, vlan := 0 }
+def podConf : Conf := { pools := [podPool], nodes := [("n1", 168362245)], provider := false }
+
+/-- one statefulset pod bound, a second one created and filtered -/
+def podHistory : List Move := [
+  .scale .sts "ns1" "a" 2,
+  .createPod "ns1" "a-0" .sts "a" "" 0 [] true,
+  .createPod "ns1" "a-1" .sts "a" "" 0 [] true,
+  .listerSync true true,
+  .filter "ns1" "a-0" ["n1"] {} 0,
+  .bind "ns1" "a-0" 1 "n1" { pick := some 168427523 } 0 0,
+  .filter "ns1" "a-1" ["n1"] {} 0 ]
+
+def podMove : Move := .bind "ns1" "a-1" 2 "n1" { pick := some 168427522 } 0 0
+
+set_option maxRecDepth 100000 in
+/-- the hypotheses of both pod-level theorems are satisfiable: the history and the move are within the model's scope, the
+    process dies after the first API-server call of the second pod's bind (its FloatingIP object is already created),
+    the resync of the new process succeeds, and the state it leaves still holds the first pod's address -/
+example : allAssumed facts (init podConf) podHistory = true ∧ assumed (run facts (init podConf) podHistory) podMove = true ∧
+    (step facts (crashAt facts 1 0 (run facts (init podConf) podHistory) podMove) (.resync [168427523, 168427522] 0 0)).2.res = .ok ∧
+    (Tbl.get (step facts (crashAt facts 1 0 (run facts (init podConf) podHistory) podMove) (.resync [168427523, 168427522] 0 0)).1.alloc 168427523).isSome
+      = true := by
+  refine ⟨by decide, by decide, by decide, by decide⟩
 
 end Galaxy.Props.C05
